@@ -64,6 +64,30 @@ CLAIMED = {
   "design_ref": "DESIGN.md §5 C20",
   "note": "Property read at name level: a pre-existing symlink at an output name is followed by fopen (counted in evidence, not a violation). Paths >= PATH_MAX are UB in the model (C10's domain). Trusted: glob(3), fopen modes, remove(3) per POSIX; tools/extract/gen_files.py.",
  },
+ "C08": {
+  "technique": "Lean 4 theorems over the binary reader model (LEB128 decoders and section dispatch with constants regenerated from reader.c/leb128.h) + byte-level correspondence with the real reader on re-encoded modules",
+  "text": "LEB128: for every value and every padded encoding up to the maximal length the regenerated decoders return the value and consume exactly the encoding (unsigned/signed, 32/64), with no UB for any buffer. Reader: custom sections anywhere and padded size fields do not change the decoded module (sections_framing_invariant, no hypothesis on the section readers), absent sections decode as empty, flag-0 and flag-2/memory-0 data segments decode equal, encode/decode round trip for the covered sections. The real reader's dump is compared with the model on modules re-encoded with minimal/maximal/random LEB widths, custom sections at every boundary, empty vs omitted sections; the real translator's emitted definitions are compared across encodings.",
+  "design_ref": "DESIGN.md §5 C08",
+  "note": "read_encode_roundtrip_partial covers type/function/table/memory/start/datacount sections; import/global/export/element/code/data round trip is tied by the dump correspondence only. emit_encoding_independent is tied by real translator runs. Trusted: tools/extract/gen_reader.py; the hand-written reader model (tied by reader-dump).",
+ },
+ "C10": {
+  "technique": "Lean 4 theorems about buffer sizes / UB sites of the reader model + sanitizer (ASan/UBSan, gcc and clang) runs of the real translator on valid modules, all prefixes and the option matrix",
+  "text": "Every sprintf/stringBuilder/file-name buffer is proved large enough for all arguments of its type (integer rows at full strength); the reader model reaches no undefined operation on any byte string except the two sites named in reader_ub_sites, neither of which is reachable from a prefix of a valid module (tested on every prefix, proved for the guarded sites). The real translator, built with sanitizers, is run on generated and spec-suite modules with names of every kind, every option combination and every truncation point.",
+  "design_ref": "DESIGN.md §5 C10",
+  "note": "translate_no_ub for the emitter is tied by sanitizer runs, not proved; float formatting buffer (sprintf_fits_float_partial) assumes glibc's %.17g length bound. A malformed (non-prefix) file can wrap codeSize (outside the quantifier; modelled as ub codeSizeUnderflow). Trusted: sanitizer completeness for the executed paths; tools/extract/gen_reader.py.",
+ },
+ "C14": {
+  "technique": "Lean 4 theorems over the path-resolution / readdir model (guards, offsets, tables regenerated from wasi.c) + correspondence with the real wasi.c (ASan/UBSan) against a POSIX twin tree",
+  "text": "resolvePath is proved to produce exactly the specified host path for every directory, guest path and length (any PATH_MAX), to be in bounds and NUL-terminated, to reject embedded NULs and over-long lengths without reading them; every path_* call acts on the resolved path with the named POSIX operation; fd_readdir returns every entry exactly once across any buffer size / resume cookie (induction over fuel and stream position), cookie 0 restarts, dirent layout round-trips.",
+  "design_ref": "DESIGN.md §5 C14",
+  "note": "readdir lstat fallback (DT_UNKNOWN) path length unchecked: model-level counterexample, not replayable on this file system. Trusted: host POSIX calls; Spec/Dir.lean LocOK validated against the kernel each run; tools/extract/gen_wasipath.py.",
+ },
+ "C15": {
+  "technique": "Lean 4 theorems over the args/environ/clock/random/proc/thread-spawn models (strides, tables regenerated from wasi.c) + correspondence with the real wasi.c incl. interposed clocks and forked exits",
+  "text": "args_get/environ_get write exactly the specified pointer and string regions for vectors of any size (pointwise final memory), sizes agree with get; clock ids and ns conversion per table; random_get fills every length < 2^32 (chunk loop); proc_exit status; thread ids distinct and start function run exactly once per successful spawn over any interleaving (invariant over Reach).",
+  "design_ref": "DESIGN.md §5 C15",
+  "note": "clock_monotonic_partial assumes the host clock; tid counter wrap excluded (stated). Trusted: getentropy/clock_gettime/pthread_create per POSIX; tools/extract/gen_wasipath.py.",
+ },
 }
 
 NOT_YET = {f"C{n:02d}": "check under construction in this round (model/theorems not yet committed); see DESIGN.md §8 build order" for n in range(1, 21)}
